@@ -449,6 +449,8 @@ def pair_collect(P, R, q):
     if len(loops) != 1:
         raise AnalysisError(f'{q}: expected one work-list loop')
     loop = loops[0]
+    # the work list is the collection the `while` loop drains
+    wl = loop.test.id if isinstance(loop.test, ast.Name) else None
     n = 0
     for items, out in pa.block_paths(loop.body):
         if out not in ('fall', 'continue'):
@@ -495,7 +497,7 @@ def pair_collect(P, R, q):
             ok = any(
                 any(au.call_name(c) == 'decref' for c in au.calls_in(lp))
                 and any(au.call_name(c) == 'add' and au.call_recv(c) == [
-                    'unused'] for c in au.calls_in(lp))
+                    wl] for c in au.calls_in(lp))
                 for lp in loops2)
             if ok:
                 R.holds('R-PAIR', q, 'every successor of a removed node is '
@@ -538,13 +540,32 @@ def pair_collect(P, R, q):
                 'and queues those that drop to zero')
     R.floor(f'R-PAIR sweep paths of {q}', n, 1)
     # the queue is seeded only with zero-count nodes
+    # every assignment that fills the work list before the loop filters
+    # on a zero count: `filter(<pred reading _ref>, ...)`, or a
+    # comprehension with `if not self.ref(u)` / `if not self._ref[...]`
+    def reads_count(e):
+        t = au.src(e).replace(' ', '')
+        return 'self._ref[' in t or 'self.ref(' in t
+    zero_preds = set()
+    for d in ast.walk(fn):
+        if isinstance(d, ast.FunctionDef) and d is not fn:
+            rets = [x for x in ast.walk(d) if isinstance(x, ast.Return)]
+            if rets and all(isinstance(r.value, ast.UnaryOp) and isinstance(
+                    r.value.op, ast.Not) and reads_count(r.value.operand)
+                    for r in rets):
+                zero_preds.add(d.name)
     seeded = False
     for n2 in au.walk_no_defs(fn):
-        if isinstance(n2, (ast.Call, ast.SetComp)):
-            text = au.src(n2).replace(' ', '')
-            if ('filter(is_unused' in text or 'ifnotself.ref(u)' in text
-                    or 'ifnotself._ref[' in text):
-                seeded = True
+        if isinstance(n2, ast.Call) and au.call_name(n2) == 'filter' and \
+                n2.args and isinstance(n2.args[0], ast.Name) and \
+                n2.args[0].id in zero_preds:
+            seeded = True
+        if isinstance(n2, (ast.SetComp, ast.ListComp, ast.GeneratorExp)):
+            for g in n2.generators:
+                for c in g.ifs:
+                    if isinstance(c, ast.UnaryOp) and isinstance(
+                            c.op, ast.Not) and reads_count(c.operand):
+                        seeded = True
     if seeded:
         R.holds('R-PAIR', q, 'the work list is seeded with zero-count '
                 'nodes only')
@@ -821,14 +842,16 @@ def invmap_paths(R, f, scope, label, need_done=None):
                 'not inverse entries on this path: the unique table and '
                 'the node table disagree', unit=f.unit.rel, line=line,
                 path=pa.describe(path))
-        if need_done == 'store-iff-done':
+        if need_done and need_done.startswith('store-iff-done'):
+            dn = need_done.split(':', 1)[1]
             adds = [c for s in stmts for c in au.calls_in(s, 'add')
-                    if au.call_recv(c) == ['done']]
+                    if au.call_recv(c) == [dn]]
             if bool(adds) != bool(s_st):
                 R.violation(
                     'R-INVMAP', 'done-set', f.qualname, label,
-                    f'{label}: the set of nodes already rewritten (`done`) '
-                    'is not updated exactly when a node is stored',
+                    f'{label}: the set of nodes already rewritten '
+                    f'(`{dn}`) is not updated exactly when a node is '
+                    'stored',
                     unit=f.unit.rel, line=scope[0].lineno,
                     path=pa.describe(path))
     return n
@@ -870,11 +893,25 @@ def r_invmap(P, R):
         if len(storing) != 3:
             raise AnalysisError(
                 'dd.bdd.BDD.swap: expected three storing loops')
+        # the set of upper-level nodes already rewritten: the one the last
+        # loop skips (`if u in <set>: continue`)
+        third = storing[2]
+        skips = [n for n in au.walk_no_defs(third) if isinstance(n, ast.If)
+                 and any(isinstance(s, ast.Continue) for s in n.body)]
+        done_name = None
+        for n in skips:
+            t = n.test
+            if isinstance(t, ast.Compare) and len(t.ops) == 1 and \
+                    isinstance(t.ops[0], ast.In) and isinstance(
+                        t.comparators[0], ast.Name) and isinstance(
+                            t.left, ast.Name):
+                done_name = t.comparators[0].id
         for i, lp in enumerate(storing):
             # loop 1 relabels every node of the lower level; loop 2
             # rewrites the upper-level nodes that do not depend on the
             # lower variable and records them; loop 3 rewrites the rest
-            mode = ('must-store', 'store-iff-done', 'must-store')[i]
+            mode = ('must-store', f'store-iff-done:{done_name}',
+                    'must-store')[i]
             k = invmap_paths(R, f, lp.body,
                              f'swap loop at line {lp.lineno}', mode)
             total += k
@@ -882,16 +919,17 @@ def r_invmap(P, R):
                     f'loop at line {lp.lineno}: {k} storing path(s), '
                     '_succ/_pred inverse, coverage '
                     f'({mode or "n/a"})')
-        # the loop that skips must skip exactly `done`
-        third = storing[2]
-        skips = [n for n in au.walk_no_defs(third) if isinstance(n, ast.If)
-                 and any(isinstance(s, ast.Continue) for s in n.body)]
-        if not any(au.src(n.test).replace(' ', '') == 'uindone'
-                   for n in skips) or len(skips) != 1:
+        # the loop that skips must skip exactly the recorded nodes
+        node_var = third.target.elts[0].id if isinstance(
+            third.target, ast.Tuple) and isinstance(
+                third.target.elts[0], ast.Name) else None
+        ok_skip = len(skips) == 1 and done_name is not None and \
+            node_var is not None and au.is_name(skips[0].test.left, node_var)
+        if not ok_skip:
             R.violation(
                 'R-INVMAP', 'done-set', f.qualname, 'skip',
                 'the last loop of swap does not skip exactly the nodes '
-                'already rewritten (`done`)', unit=f.unit.rel,
+                'already rewritten by the previous loop', unit=f.unit.rel,
                 line=third.lineno)
         # unique-table entries of both levels are removed first
         first = [lp for lp in loops if any(
@@ -969,6 +1007,15 @@ def undeclare_rebuild(P, R):
                 f'{source}', unit=f.unit.rel, line=body[i_d].lineno)
         else:
             R.holds('R-INVMAP', f.qualname, what)
+    # name of the old -> new level map: the dictionary that relabels the
+    # node levels in the rebuilt `_succ`
+    cmap = None
+    if '_succ' in idx and isinstance(idx['_succ'][1], ast.DictComp):
+        v = idx['_succ'][1].value
+        if isinstance(v, ast.Tuple) and v.elts and isinstance(
+                v.elts[0], ast.Subscript) and isinstance(
+                    v.elts[0].value, ast.Name):
+            cmap = v.elts[0].value.id
     # the kept variables get their new level through the compaction map
     if 'vars' in idx and isinstance(idx['vars'][1], ast.DictComp):
         d = idx['vars'][1]
@@ -976,8 +1023,8 @@ def undeclare_rebuild(P, R):
         tnames = [au.src(e) for e in g.target.elts] if isinstance(
             g.target, ast.Tuple) else []
         val = d.value
-        through_map = isinstance(val, ast.Subscript) and au.is_name(
-            val.value, 'new_levels') and len(tnames) == 2 and au.src(
+        through_map = isinstance(val, ast.Subscript) and bool(cmap) and \
+            au.is_name(val.value, cmap) and len(tnames) == 2 and au.src(
                 val.slice) == tnames[1] and au.src(d.key) == tnames[0] \
             and au.src(g.iter).replace(' ', '') == 'self.vars.items()'
         by_position = any(isinstance(c, ast.Call) and au.call_name(
@@ -999,8 +1046,8 @@ def undeclare_rebuild(P, R):
     # compaction map: enumerate over an ascending range -> order preserving
     ok = False
     for s in au.walk_no_defs(f.node):
-        if isinstance(s, ast.Assign) and au.is_name(
-                s.targets[0], 'new_levels') and isinstance(
+        if cmap and isinstance(s, ast.Assign) and au.is_name(
+                s.targets[0], cmap) and isinstance(
                     s.value, ast.DictComp):
             g = s.value.generators[0]
             if isinstance(g.iter, ast.Call) and au.call_name(
@@ -1011,8 +1058,8 @@ def undeclare_rebuild(P, R):
                         s.value.value) == new:
                     ok = True
     lists = [s for s in au.walk_no_defs(f.node)
-             if isinstance(s, ast.Assign) and au.is_name(
-                 s.targets[0], 'new_levels') and isinstance(
+             if cmap and isinstance(s, ast.Assign) and au.is_name(
+                 s.targets[0], cmap) and isinstance(
                      s.value, ast.ListComp)]
     asc = lists and all(
         isinstance(s.value.generators[0].iter, ast.Call) and au.call_name(
@@ -1020,6 +1067,9 @@ def undeclare_rebuild(P, R):
     if ok and asc:
         R.holds('R-INVMAP', f.qualname, 'level compaction enumerates an '
                 'ascending range: relative order preserved')
+    elif cmap is None:
+        R.undecided('R-INVMAP', f.qualname, 'compaction map',
+                    'the relabelling of node levels was not recognised')
     else:
         R.violation(
             'R-INVMAP', 'compaction', f.qualname, 'new_levels',
